@@ -27,6 +27,7 @@ pub fn info(id: &str) -> Option<PropInfo> {
         "C06" => ("exploration", "bytes compared with an independent reference encoder + reference hasher (compiler padding masked); golden corpus written by the pinned build re-read. Non-trivial = stream contains a tag, length prefix or block."),
         "C07" => ("exploration", "event trace of the real padding code (Align/Block): start % unit == 0, minimal all-zero gap, unit power of two >= native alignment and >= field units; returned count == bytes written == bytes consumed by both readers; exhaustive pad formula grid. Non-trivial = case with a block preceded by a gap > 0."),
         "C08" => ("exploration", "files of generated values x loaders x 8 flag sets x move/thread scripts; oracle: loaded == eps(file bytes); borrows inside region; region alignment and zero tail. Non-trivial = structure with a non-empty borrow."),
+        "C09" => ("fault_enumeration", "run-time: per subject a generated value with borrowed payloads inflated to >= 300 KB; failure causes {bad magic, major version, wrong type hash, wrong alignment hash, truncated header, truncated value, foreign tag, missing file} x loaders {load_full, load_mem, load_mmap, mmap} x 5 repetitions after a warm-up: live heap bytes (tracking allocator), file mappings (/proc/self/maps) and address-space size (/proc/self/statm) must return to the previous level; successful loads moved/boxed/dropped likewise. Compile-time: a family of probe programs per access path (eps result past the buffer's scope / returned / required 'static / sent to a thread; MemCase contents copied out through Deref, AsRef, field or element copy for each loader) that must not compile, each with a positive twin. Non-trivial = (cause, loader) pair or negative probe."),
         "C10" => ("fault_enumeration", "per generated stream: every single-bit flip of the 29 fixed header bytes, reversed cookie, minor version classes, both modes; oracle: field -> exact error variant and payload. Non-trivial = every mutation (distinct by subject, value, mutation)."),
         "C11" => ("fault_enumeration", "per generated stream: every cut point k in [0,len) (sampled for long streams) x {full, load_full, eps on exact prefix, mmap}; oracle: ReadError / error-or-bounds-panic, never a value. Non-trivial = cut inside the value part."),
         "C12" => ("exploration", "per generated stream: all base residues 0..127; oracle: success iff every block the deserializer meets lands on a multiple of its unit (prediction from the serializer's align events), else AlignmentError; borrows aligned. Non-trivial = residue predicted to fail, or a sibling pair with different block sets."),
@@ -35,6 +36,7 @@ pub fn info(id: &str) -> Option<PropInfo> {
         "C15" => ("exploration", "every tag site of every generated stream x every foreign tag value (all bytes / boundary usize values), both modes; every variant round-trips. Non-trivial = foreign tag injection (distinct by subject, value, site, tag)."),
         "C18" => ("exploration", "schema recording vs plain bytes; row invariants (pre-order, containment, leaf tiling, zero padding, aligned blocks); to_csv/debug. Non-trivial = schema with a composite having >= 2 children and a padding row."),
         "C16" => ("exploration", "every subject of the form Vec<E> (zero-copy and deep E) x generated item sequences incl. empty: streams of &[E], SerIter (zero-copy E), and both nested in one- and two-parameter generic structs compared byte-for-byte (same source memory) with the vector's stream, header included; slice stream deserialized as the vector in both modes; lying iterators for all (announced, actual) in 0..8 x {standalone, nested}; writer faults with borrowed sources (no foreign free). Non-trivial = non-empty sequence, or announced != actual."),
+        "C17" => ("exploration", "probe programs: a valid zero-copy definition generated from the grammar (twin) and the same definition with one mutation (field replaced by vector / string / boxed slice / deep struct / Copy-but-deep struct / option / reference / reference holder / array of deep values / non-Copy range, repr(C) dropped or replaced, both attributes); oracle: cargo check rejects the mutant, or the built mutant panics/fails with no byte written beyond the header; the twin compiles and round-trips. Non-trivial = mutant probe, distinct by source text."),
         "C19" => ("exploration", "operation histories vec(op, 0..60) over {write, write_all, flush, read, seek start/current/end, set_position, position, len, as_bytes} x 8 alignment types x optional initial capacity, plus long histories (500-1500 ops); differential against std::io::Cursor<Vec<u8>> after every step (result/ErrorKind, position, length, contents, storage alignment). Non-trivial = history containing a non-empty write that begins beyond the current length; distinct by (alignment, history, capacity)."),
         _ => return None,
     };
@@ -81,6 +83,12 @@ pub fn run(opts: &Opts) -> i32 {
         eprintln!("property {} has no check registered", opts.prop);
         return 2;
     };
+    if opts.prop == "C09" {
+        return crate::c09::run(opts, &pi);
+    }
+    if opts.prop == "C17" {
+        return crate::c17::run(opts, &pi);
+    }
     let labels = if let Some(r) = &opts.replay {
         let rj = crate::read_json(&r.to_string_lossy()).unwrap_or(Value::Null);
         vec![rj["universe"].as_str().filter(|u| *u != "-").unwrap_or("fixed").to_string()]
